@@ -260,14 +260,44 @@ def quiet(target: Target):
         target.rec.active = saved
 
 
-def add_siblings(target: Target, fmt: int):
-    """foreign members + a foreign root attribute in the same zarr container"""
+SIB_VARIANTS = ("array+group", "array", "group", "nested", "attrs")
+
+
+def add_siblings(target: Target, fmt: int, variant=True):
+    """foreign content in the same zarr container.  Variants: root-level array and a group (default),
+    array only, (empty) group only, a nested group with arrays inside (image pyramid / labels), root
+    attributes only"""
+    if variant is True:
+        variant = "array+group"
     with quiet(target):
         r = zarr.open_group(target.mem if target.kind == "mem" else target.dir, mode="a", zarr_format=fmt)
-        r["raw"] = np.arange(4, dtype="int32")
-        g = r.require_group("other/sub")
-        g.attrs["note"] = "keep"
-        r.attrs["foreign"] = {"a": 1}
+        if variant in ("array+group", "array"):
+            r["raw"] = np.arange(4, dtype="int32")
+        if variant == "array+group":
+            g = r.require_group("other/sub")
+            g.attrs["note"] = "keep"
+        if variant == "group":
+            g = r.require_group("labels")
+            g.attrs["note"] = "keep"
+        if variant == "nested":
+            g = r.require_group("pyramid/s0")
+            g["img"] = np.arange(6, dtype="uint8").reshape(2, 3)
+            r["pyramid"]["s1"] = np.arange(2, dtype="uint8")
+        if variant != "group":
+            r.attrs["foreign"] = {"a": 1}
+
+
+def foreign_preserved(pre: dict, post: dict, kind: str) -> bool:
+    """unrelated members byte-identical; foreign root attributes unchanged too, except that a str/Path
+    root holding nothing but the geff is removed as a whole (delete_geff's documented behaviour)"""
+    if foreign_members(pre) != foreign_members(post):
+        return False
+    return pre == post or (not foreign_members(pre) and kind not in ("mem", "local"))
+
+
+def foreign_members(fp: dict) -> dict:
+    """the member part of `foreign_part` (without the root attributes)"""
+    return {k: v for k, v in fp.items() if k != "#rootattrs"}
 
 
 # --------------------------------------------------------------------------- graphs
@@ -347,6 +377,13 @@ def corrupt(spec: dict, node_ids, node_props, edge_ids, edge_props):
         node_props["badlen"] = {"values": np.arange(len(node_ids) + 2, dtype="int64") + 1, "missing": None}
     elif bad == "len-edge":
         edge_props["badlen"] = {"values": np.arange(len(edge_ids) + 1, dtype="float64") + 1, "missing": None}
+    elif bad == "len-edge3":
+        edge_props["badlen3"] = {"values": np.arange(3, dtype="float64") + 1 + len(edge_ids), "missing": None}
+    elif bad == "len-emissing":
+        edge_props["badmiss"] = {"values": np.arange(len(edge_ids), dtype="int64") + 1,
+                                 "missing": np.zeros(len(edge_ids) + 2, dtype=bool)}
+    elif bad == "complex-eprop":
+        edge_props["cplx"] = {"values": (np.arange(len(edge_ids)) + 1j).astype("complex128"), "missing": None}
     elif bad == "len-missing":
         node_props["badmiss"] = {"values": np.arange(len(node_ids), dtype="int64") + 1,
                                  "missing": np.zeros(len(node_ids) + 1, dtype=bool)}
